@@ -11,8 +11,8 @@ from .ctx import Ctx
 from .model import AnalysisError, ClassInfo, FieldInfo, FunctionInfo
 from .report import RuleResult
 from .terms import (Attr, BoundMethod, Call, ClassRef, Comp, Const, EnumMember, Evaluator, Ext, GlobalVal, Guard, Lam, helper_inline,
-                    Loop, Op, Opaque, Outcome, Sub, Sym, Term, TupleT, alternatives, guards_repr, norm_guards, walk)
-from .util import all_terms, call_name, call_recv, is_self_attr, method_calls, none_test, outcome_terms
+                    Loop, Op, Opaque, Outcome, Sub, Sym, Term, TupleT, alternatives, guards_repr, implied_literals, norm_guards, walk)
+from .util import exists_form, all_terms, call_name, call_recv, is_self_attr, method_calls, none_test, outcome_terms
 
 
 # ------------------------------------------------------------------ slot table
@@ -272,7 +272,8 @@ def _consulted_slots(terms: List[Term], q: str, self_t: Term, slots: List[Slot])
                 if isinstance(rc, Attr) and rc.base == self_t:
                     got.add(rc.name)
             if isinstance(x, Comp):
-                calls_q = any(isinstance(y, Call) and call_name(y) == q and isinstance(call_recv(y), Sym) and call_recv(y).name.startswith('each:') for y in walk(x.elt))
+                calls_q = any(isinstance(y, Call) and call_name(y) == q and isinstance(call_recv(y), Sym) and call_recv(y).name.startswith('each:')
+                              for part in (x.elt,) + tuple(it for _, it, _ in x.gens[1:]) for y in walk(part))   # {n for c in children for n in c.q()}
                 if calls_q:
                     for _, it, _ in x.gens:
                         if _children_call(it, self_t):
@@ -294,6 +295,7 @@ def S3(ctx: Ctx) -> RuleResult:
     r = RuleResult('S3', 'reference queries cover every child slot of every class, combine with or/union, and implement the leaf/binder base cases')
     tab = slot_table(ctx)
     n = 0
+    scanned: Dict[str, bool] = {}
     for q in BOOL_QUERIES + SET_QUERIES:
         for c in _query_classes(ctx, q):
             fi = c.resolve(q)
@@ -306,10 +308,14 @@ def S3(ctx: Ctx) -> RuleResult:
                 if 'NotImplementedError' in names:
                     r.fail(f'{c.name}.{q}', 'query resolves to an abstract stub (NotImplementedError) on a concrete class', fi.where)
                     continue
-            got, via_children = _consulted_slots(terms, q, self_t, slots)
             need = {s.name for s in slots}
-            n += 1
             key = f'{c.name}.{q}'
+            if q in BOOL_QUERIES and _scan_query(ctx, r, c, fi, q, self_t, scanned):
+                n += 1
+                r.ok(f'{key}: flat scan of self.iterate() [{fi.cls.name}]')
+                continue
+            got, via_children = _consulted_slots(terms, q, self_t, slots)
+            n += 1
             if via_children or need <= got:
                 r.ok(f'{key} via {"children()" if via_children else sorted(got) or "no slots"} [{fi.cls.name}]')
             else:
@@ -331,9 +337,67 @@ def S3(ctx: Ctx) -> RuleResult:
                     r.fail(key + ':combine', f'{q} combines child results with {bad} instead of {"or/any" if q in BOOL_QUERIES else "union"}', fi.where)
             if q in SET_QUERIES:
                 _check_set_query(ctx, r, c, fi, q, outs, self_t)
-    _leaf_rules(ctx, r)
+    _leaf_rules(ctx, r, {k for k, v in scanned.items() if v})
     r.floor('(class, query) pairs', n, 50)
     return r
+
+
+# what the element test of a flat scan must say about a node of each class: the base cases of the recursive form
+SCAN_LEAF = {
+    'contains_reference': ('HplVarReference', 'name'),
+    'contains_self_reference': ('HplThisMessage', None),
+    'contains_definition': ('HplQuantifier', 'variable'),
+}
+
+
+def _scan_query(ctx: Ctx, r: RuleResult, c: ClassInfo, fi: FunctionInfo, q: str, self_t: Term, scanned: Dict[str, bool]) -> bool:
+    """The query is written as `some node of self.iterate() satisfies <test>` instead of recursing through the children:
+    every descendant is covered when iterate() is the whole-subtree walk (S7's criterion, re-checked here), and the
+    test must be, for each class of node, exactly the base case of the recursive definition."""
+    from .terms import subst
+    if fi.key in scanned:
+        return scanned[fi.key]
+    scanned[fi.key] = False
+    params = fi.params()
+    alias = Sym('alias')
+    base_t = Sym('self', fi.cls.name)
+    outs = ctx.ev.run(fi, {'self': base_t, **({params[1]: alias} if len(params) > 1 else {})})
+    ef = exists_form(ctx.ev, outs)
+    if ef is None:
+        return False
+    it, each, cond = ef
+    if not (isinstance(it, Call) and call_name(it) == 'iterate' and call_recv(it) == base_t and not it.args and not it.kwargs):
+        return False
+    scanned[fi.key] = True
+    key = f'{fi.cls.name}.{q}'
+    for wfi in {id(k.resolve('iterate')): k.resolve('iterate') for k in ctx.model.subclasses(fi.cls) if k.resolve(q) is fi}.values():
+        if wfi is None:
+            r.fail(key + ':walk', 'the scanned walk iterate() is not defined', fi.where)
+            continue
+        w_self = Sym('self', wfi.cls.name)
+        why = _preorder_ok(ctx.ev.run(wfi, {'self': w_self}), w_self, 'children', 'iterate')
+        if why:
+            r.fail(key + ':walk', f'{q} scans self.iterate(), which does not reach every node of the sub-tree: {why}', wfi.where)
+    leaf, attr = SCAN_LEAF[q]
+    for k in ctx.model.concrete_ast_classes():
+        if k.resolve(q) is not fi:
+            continue
+        k_self = Sym('self', k.name)
+        got = ctx.ev.refold(subst(cond, {each: k_self}))
+        if k.name == leaf or any(b.name == leaf for b in k.mro()):
+            if attr is None:
+                ok = got == Const(True)
+                want = 'True'
+            else:
+                at = ctx.ev.attr(k_self, attr, __import__('hplsa.terms', fromlist=['_State'])._State(), 0)
+                ok = isinstance(got, Op) and got.op == '==' and set(got.args) == {alias, at}
+                want = f'alias == self.{attr}'
+        else:
+            ok = got == Const(False)
+            want = 'False'
+        if not ok:
+            r.fail(f'{k.name}.{q}:scan', f'the element test of the flat scan says {got!r} about a {k.name} node, expected {want}', fi.where, want, repr(got))
+    return True
 
 
 def _bad_combiner(v: Term, q: str) -> Optional[str]:
@@ -392,9 +456,13 @@ def _single_return(ctx: Ctx, c: ClassInfo, name: str, args: Dict[str, Term]) -> 
     return fi, ctx.ev.run(fi, a, self_cls=c)
 
 
-def _leaf_rules(ctx: Ctx, r: RuleResult):
+def _leaf_rules(ctx: Ctx, r: RuleResult, scan_defs: Set[str] = frozenset()):
     m = ctx.model
     alias = Sym('alias')
+
+    def is_scan(cname: str, q: str) -> bool:
+        fi0 = m.cls(cname, 'S3').resolve(q)
+        return fi0 is not None and fi0.key in scan_defs
     # HplVarReference
     vr = m.cls('HplVarReference', 'S3')
     self_t = Sym('self', 'HplVarReference')
@@ -413,20 +481,26 @@ def _leaf_rules(ctx: Ctx, r: RuleResult):
     if len(params) >= 2:
         outs = ctx.ev.run(fi, {'self': self_t, params[1]: alias}, self_cls=vr)
     ok = len(outs) == 1 and outs[0].kind == 'return' and isinstance(outs[0].value, Op) and outs[0].value.op == '==' and set(outs[0].value.args) == {alias, name_term}
-    (r.ok('HplVarReference.contains_reference(a) = (a == name)') if ok else r.fail('HplVarReference.contains_reference', f'expected alias == self.name, got {[str(o) for o in outs]}', fi.where))
+    if not is_scan('HplVarReference', 'contains_reference'):
+        (r.ok('HplVarReference.contains_reference(a) = (a == name)') if ok else r.fail('HplVarReference.contains_reference', f'expected alias == self.name, got {[str(o) for o in outs]}', fi.where))
     # HplThisMessage.contains_self_reference -> True ; others' leaves False
     tm = m.cls('HplThisMessage', 'S3')
     fi, outs = _single_return(ctx, tm, 'contains_self_reference', {})
     ok = len(outs) == 1 and outs[0].kind == 'return' and outs[0].value == Const(True)
-    (r.ok('HplThisMessage.contains_self_reference = True') if ok else r.fail('HplThisMessage.contains_self_reference', f'expected True, got {[str(o) for o in outs]}', fi.where))
+    if not is_scan('HplThisMessage', 'contains_self_reference'):
+        (r.ok('HplThisMessage.contains_self_reference = True') if ok else r.fail('HplThisMessage.contains_self_reference', f'expected True, got {[str(o) for o in outs]}', fi.where))
     for cname in ('HplLiteral', 'HplVarReference'):
         c = m.cls(cname, 'S3')
+        if is_scan(cname, 'contains_self_reference'):
+            continue
         fi, outs = _single_return(ctx, c, 'contains_self_reference', {})
         ok = len(outs) == 1 and outs[0].kind == 'return' and outs[0].value == Const(False)
         (r.ok(f'{cname}.contains_self_reference = False') if ok else r.fail(f'{cname}.contains_self_reference', f'expected False, got {[str(o) for o in outs]}', fi.where))
     for cname in ('HplLiteral', 'HplThisMessage'):
         c = m.cls(cname, 'S3')
         for q in ('contains_reference', 'contains_definition'):
+            if is_scan(cname, q):
+                continue
             fi, outs = _single_return(ctx, c, q, {})
             ok = len(outs) == 1 and outs[0].kind == 'return' and outs[0].value == Const(False)
             (r.ok(f'{cname}.{q} = False') if ok else r.fail(f'{cname}.{q}', f'expected False, got {[str(o) for o in outs]}', fi.where))
@@ -435,7 +509,8 @@ def _leaf_rules(ctx: Ctx, r: RuleResult):
         (r.ok(f'{cname}.external_references = fresh empty set') if ok else r.fail(f'{cname}.external_references', f'expected a fresh empty set, got {[str(o) for o in outs]}', fi.where))
     fi, outs = _single_return(ctx, m.cls('HplVarReference'), 'contains_definition', {})
     ok = len(outs) == 1 and outs[0].kind == 'return' and outs[0].value == Const(False)
-    (r.ok('HplVarReference.contains_definition = False') if ok else r.fail('HplVarReference.contains_definition', f'expected False, got {[str(o) for o in outs]}', fi.where))
+    if not is_scan('HplVarReference', 'contains_definition'):
+        (r.ok('HplVarReference.contains_definition = False') if ok else r.fail('HplVarReference.contains_definition', f'expected False, got {[str(o) for o in outs]}', fi.where))
     # HplQuantifier.contains_definition: True when alias == variable, else recursion
     qc = m.cls('HplQuantifier', 'S3')
     fi = qc.resolve('contains_definition')
@@ -448,7 +523,8 @@ def _leaf_rules(ctx: Ctx, r: RuleResult):
         for t, pol in norm_guards(o.guards):
             if pol and isinstance(t, Op) and t.op == '==' and set(t.args) == {alias, Attr(self_q, 'variable')}:
                 ok = True
-    (r.ok('HplQuantifier.contains_definition(a): a == variable -> True') if ok else r.fail('HplQuantifier.contains_definition:binder', 'no path returns True when the alias equals the bound variable', fi.where))
+    if not is_scan('HplQuantifier', 'contains_definition'):
+        (r.ok('HplQuantifier.contains_definition(a): a == variable -> True') if ok else r.fail('HplQuantifier.contains_definition:binder', 'no path returns True when the alias equals the bound variable', fi.where))
 
 
 def _is_fresh_empty_set(v: Optional[Term]) -> bool:
@@ -593,6 +669,11 @@ def S4(ctx: Ctx) -> RuleResult:
         for deep in (True, False):
             n += 1
             outs = ctx.ev.run(fi, {'self': self_t, 'f': f, 'deep': Const(deep)}, self_cls=c)
+            via_helper = False
+            if any(o.kind == 'return' and isinstance(o.value, Call) and call_recv(o.value) == self_t and (call_name(o.value) or '').startswith('_') for o in outs):
+                # the work is done by a private helper shared between node classes (it may loop over the slot names)
+                via_helper = True
+                outs = ctx.memo('S4_helper_ev', lambda: Evaluator(ctx.model, inline=helper_inline((fi.module.name,)))).run(fi, {'self': self_t, 'f': f, 'deep': Const(deep)}, self_cls=c)
             key = f'{c.name}.reshape[{"deep" if deep else "shallow"}]'
             rebuilt = False
             for o in outs:
@@ -600,7 +681,7 @@ def S4(ctx: Ctx) -> RuleResult:
                     r.fail(key, f'path does not return: {o}', fi.where)
                     continue
                 for g, leaf in alternatives(o.value):
-                    o2 = Outcome(o.kind, leaf, o.guards + g, o.effects, o.asserts, o.lineno, o.env)
+                    o2 = Outcome(o.kind, leaf, (implied_literals(o.guards + g) if via_helper else o.guards + g), o.effects, o.asserts, o.lineno, o.env)
                     if leaf == self_t:
                         why = _identity_guard_ok(o2, slots, self_t, {})
                         if why:
@@ -623,6 +704,12 @@ def S4(ctx: Ctx) -> RuleResult:
                         r.fail(key + ':rebuild', f'but() also changes non-slot field(s) {extra}', fi.where)
                     for s in slots:
                         if s.name not in vals:
+                            # left out of the copy because this path established that the new child IS the old one
+                            same = [x for t, pol in o2.guards if pol and isinstance(t, Op) and t.op == 'is' and len(t.args) == 2 and Attr(self_t, s.name) in t.args
+                                    for x in t.args if x != Attr(self_t, s.name)]
+                            if same and all(_slot_value_ok(x, s, self_t, f, deep) is None for x in same):
+                                r.ok(f'{key}: {s.name} unchanged on this path ({str(same[0])[:60]} is self.{s.name})')
+                                continue
                             r.fail(f'{key}:{s.name}', f'slot {s.name} is not rebuilt (f never reaches it)', fi.where)
                             continue
                         why = _slot_value_ok(vals[s.name], s, self_t, f, deep)
